@@ -132,8 +132,8 @@ def main(argv=None):
     timeout_ms = 10000 if tier == "quick" else 120000
     obs, fam_errors, ctxs = core.run_families(pid, tier, only=args.only)
     obs = dedupe(obs)
+    core.discharge_all(obs, timeout_ms, jobs=int(os.environ.get("FJVC_JOBS", "0")) or None)
     for ob in obs:
-        core.discharge(ob, timeout_ms)
         if args.verbose:
             print(f"  {ob.status:14s} {ob.ms:8.1f}ms {ob.backend or '':12s} {ob.oid}")
 
